@@ -25,7 +25,7 @@ ASSUMPTIONS = [
     "event-log file order respects happens-before",
     "multi-TAN / multi-WCS updates are attributed to the input most recently received by the same worker pid",
 ]
-PROFS = ["natural", "jitter", "slow_feeder", "slow_workers", "late_start", "burst", "slow_dispatcher", "pct"]
+PROFS = ["natural", "jitter", "slow_feeder", "slow_workers", "late_start", "burst", "slow_dispatcher", "pct", "late_check"]
 
 
 def cases(tier, seed):
@@ -40,6 +40,8 @@ def cases(tier, seed):
         par = R.choice([2, 3, 5, 8] if tier == "quick" else [2, 3, 5, 8, 16])
         if prof == "burst":
             par = R.choice([16, 32])
+        if prof == "late_check":
+            par = R.choice([2, 2, 3])  # an item is lost only if EVERY worker passes through the window
         s = dict(stage=st, profile=prof, par=par, seed=R.randrange(1 << 30))
         s["long_item"] = (i % 4 == 1)
         s["kill_item"] = (st in ("leaves", "doone") and i % 7 == 3)  # the worker processing one item is SIGKILLed (OOM killer, segfault)  # one item whose processing outlasts every (dilated) time-out after the queue has drained
@@ -512,7 +514,7 @@ def finish(agg, tier):
     miss = [s for s in ("leaves", "u8", "f16", "doone", "mtan", "mwcs") if c.get("runs_stage_" + s, 0) < 3]
     miss += [p for p in PROFS if c.get("runs_profile_" + p, 0) < 1]
     for st_ in ("leaves", "u8", "doone", "mtan", "mwcs"):
-        for pr_ in ("slow_feeder", "slow_workers", "late_start"):
+        for pr_ in ("slow_feeder", "slow_workers", "late_start", "late_check"):
             if c.get("runs_%s_%s" % (st_, pr_), 0) < 1:
                 miss.append("%s under %s" % (st_, pr_))
     if c.get("log_timeouts_before_event_set", 0) < 1:
